@@ -15,7 +15,8 @@ EXPLANATION = (
     "forward / backward pass, and the per-node table is the registry entry of that node; (R4) no variable written in one "
     "iteration of the phase loop reaches the next iteration except append-only result accumulators (reaching definitions "
     "over the back edge, inner loops assumed to run once), and the phase list is [p] or all phases in declared order; "
-    "(R5) an unknown phase raises ValueError before any solve. Not decided: the numeric values per phase (C01/C03).")
+    "(R5) an unknown phase raises ValueError before any solve, and phase names are matched by equality or registry "
+    "membership, never by containment in a name. Not decided: the numeric values per phase (C01/C03).")
 
 PHASED = ["Source", "Converter", "LinReg", "PSwitch", "PMux"]
 UNPHASED = ["RLoss", "VLoss", "Rectifier"]
